@@ -39,6 +39,7 @@ THEOREMS = [
         "C13_refuted_topic_index",
         "C13_refuted_flow_namespace",
         "C13_refuted_stream_compress",
+        "C13_refuted_mqtt_rules",
     ]
 ]
 
@@ -97,7 +98,7 @@ MANIFEST = dict(
 )
 
 FLAGS = ["q_wr_zero_total", "q_rl_zero_period", "q_sig_no_keystore", "q_adaptor_codec", "q_policy_ref", "q_fallback_nil_resp",
-         "q_null_entry", "q_retry_jitter", "q_builder_template", "q_topic_index", "q_flow_namespace", "q_stream_compress"]
+         "q_null_entry", "q_retry_jitter", "q_builder_template", "q_topic_index", "q_flow_namespace", "q_stream_compress", "q_mqtt_rules"]
 PANIC = {"": 0, "create": 1, "init": 2, "handle": 3, "other": 4, "crash": 5, "hang": 6}
 
 
@@ -243,7 +244,7 @@ EXTERNAL = {
     "Proxy pools with serviceRegistry+serviceName": "need the ServiceRegistry system controller",
     "HTTPServer with globalFilter": "looked up through a running supervisor",
     "HTTPServer listener / HTTP3 / autocert runtime": "only the mux (rules, ip filters, regexps, cache) is loaded and served",
-    "MQTTProxy broker": "binds a TCP port and needs the cluster of a running supervisor (validation only here)",
+    "MQTTProxy with useTLS": "needs key material (the plain broker is started in-process with an in-memory session store)",
 }
 
 
